@@ -6,7 +6,7 @@
    kinds it has no case for (recorded finding less-skips-uint64-family). *)
 From Coq Require Import Permutation Sorted.
 From JV Require Import Model.Base Model.GoTime Gen.TypeGo Model.Schema Model.Value
-  Model.Resource Model.Filter Model.Range Proofs.C09Facts.
+  Model.Resource Model.Filter Model.Range Proofs.C09Facts Proofs.C09Order.
 
 (* the result is the window [num*size, (num+1)*size) of the sorted selection *)
 Theorem C09_window : forall sorter c ids f rules size num kept,
@@ -72,9 +72,39 @@ Theorem C09_unique_sorted_partial : forall (lt : resource -> resource -> bool) d
 Proof. intros lt dom H1 H2. exact (sorted_unique_on lt dom H2). Qed.
 Print Assumptions C09_unique_sorted_partial.
 
-(* NOT PROVED here (correspondence + oracle only): that [less rules] IS a strict
-   weak order on every well-typed collection, and total when the rules contain
-   id and ids are unique -- the premises of C09_unique_sorted_partial. *)
+(* Less is a strict weak order -- irreflexive, transitive, with a transitive
+   "neither before the other" -- on every collection whose sorting attributes
+   are well typed ([rule_typed]: the rule is on id, or every resource reads a
+   value of one attribute type for it).  This is what sort.Sort needs in order
+   to return a sorted list. *)
+Theorem C09_less_strict_weak_order : forall dom rules,
+  Forall (rule_typed dom) (effective_rules rules) ->
+  (forall a, less rules a a = false) /\
+  (forall a b d, In a dom -> In b dom -> In d dom ->
+     less rules a b = true -> less rules b d = true -> less rules a d = true) /\
+  (forall a b d, In a dom -> In b dom -> In d dom ->
+     less rules a b = false -> less rules b a = false ->
+     less rules b d = false -> less rules d b = false ->
+     less rules a d = false /\ less rules d a = false).
+Proof. exact less_strict_weak_order. Qed.
+Print Assumptions C09_less_strict_weak_order.
+
+(* When the rules mention id (an empty rule list sorts by id) and the selected
+   resources have distinct ids, Less is total on them and two sorted
+   permutations coincide: the page does not depend on the sorting algorithm
+   nor on the initial order of the collection.  No typing hypothesis. *)
+Theorem C09_sorted_result_unique : forall rules dom,
+  rules_have_id rules ->
+  (forall a b, In a dom -> In b dom -> id_of a = id_of b -> a = b) ->
+  forall l1 l2, incl l1 dom -> incl l2 dom ->
+  StronglySorted (fun a b => less rules b a = false) l1 ->
+  StronglySorted (fun a b => less rules b a = false) l2 ->
+  Permutation l1 l2 -> l1 = l2.
+Proof. exact sorted_result_unique. Qed.
+Print Assumptions C09_sorted_result_unique.
+
+Theorem C09_empty_rules_sort_by_id : rules_have_id [].
+Proof. exact empty_rules_have_id. Qed.
 
 Example c09_window_example :
   window [1; 2; 3; 4; 5]%Z 2 0 = [1; 2]%Z /\ window [1; 2; 3; 4; 5]%Z 2 2 = [5]%Z /\
